@@ -127,7 +127,7 @@ func init() {
 		Rule:      "script = 1 caller with 20-220 (sometimes 1000) or 2-3 concurrent callers with 6-35 calls of Subscribe / Unsubscribe / Subscribers / Retain / Retained on one MemTopics (filters over {a,b,+,#} plus empty levels or a larger vocabulary in a third of the runs, invalid filters and QoS, several subscribers, re-subscription with another QoS, retained set/clear), MaxQosAllowed 0-2; sequential histories compared call by call with a specification model (MQTT 4.7 matcher + maps), concurrent ones checked with porcupine (invoke/return stamped with the simulator's event sequence numbers; Retained compared on the selected topics). One enumerated script per batch sweeps all 780 filter strings x 120 topic names of up to four levels over {a,b,empty,+,#} for filter validity, subscriber matching and retained selection. Non-trivial = more than two calls; distinct = schedule hash.",
 		Real:      []string{"topics.MemTopics (Subscribe, Unsubscribe, Subscribers, Retain, Retained)", "message.PublishMessage (encode/decode of retained messages)"},
 		Stub:      []string{"sync (simulator model: RWMutex with writer preference)", "callers (scripted tasks)"},
-		Level:     "exploration", QuickRuns: 60000, ThoroughRuns: 4000000,
+		Level:     "exploration", QuickRuns: 40000, ThoroughRuns: 4000000,
 		Assumptions: []string{
 			"RWMutex prefers writers; lock hand-off may go to any waiter (simulator models of Go's primitives)",
 			"linearizability is checked for histories of at most 35 calls; porcupine time-outs are counted as inconclusive, never as violations or passes",
